@@ -30,6 +30,16 @@ POSSESSIVE = getattr(sre_c, "POSSESSIVE_REPEAT", None)
 ATOMIC = getattr(sre_c, "ATOMIC_GROUP", None)
 
 
+def compiled_constant(module, e: ast.AST, wrappers: Iterable[str] = ()):
+    """(pattern, flags) when ``e`` is a module-level name bound to ``re.compile(<constant>[, flags])`` or such a
+    call itself; None otherwise."""
+    if isinstance(e, ast.Name) and module is not None and e.id in module.assigns:
+        e = module.assigns[e.id]
+    if q.is_call(e, "re.compile") and e.args:
+        return pattern_constant(e.args[0], wrappers, module), flag_value(q.kwarg(e, "flags") or (e.args[1] if len(e.args) > 1 else None))
+    return None
+
+
 def parse(pattern: str, flags: int = 0):
     try:
         return sre_parse.parse(pattern, flags)
@@ -51,13 +61,18 @@ def flag_value(e: Optional[ast.AST]) -> int:
     raise AnalysisError("regex flags expression %s not understood" % q.unparse(e))
 
 
-def pattern_constant(e: ast.AST, wrappers: Iterable[str] = ()) -> str:
+def pattern_constant(e: ast.AST, wrappers: Iterable[str] = (), module=None, _depth: int = 0) -> str:
     """The string constant denoting a pattern: a str Constant, possibly wrapped in identity-on-str calls
-    named in ``wrappers`` (e.g. ``to_unicode(r'...')``)."""
+    named in ``wrappers`` (e.g. ``to_unicode(r'...')``), possibly through module-level constants of
+    ``module`` (a vt.model.ModuleInfo), possibly a concatenation of such."""
     while isinstance(e, ast.Call) and q.call_attr(e) in set(wrappers) and len(e.args) == 1 and not e.keywords:
         e = e.args[0]
     if isinstance(e, ast.Constant) and isinstance(e.value, str):
         return e.value
+    if module is not None and isinstance(e, ast.Name) and e.id in module.assigns and _depth < 6:
+        return pattern_constant(module.assigns[e.id], wrappers, module, _depth + 1)
+    if isinstance(e, ast.BinOp) and isinstance(e.op, ast.Add) and _depth < 6:
+        return pattern_constant(e.left, wrappers, module, _depth + 1) + pattern_constant(e.right, wrappers, module, _depth + 1)
     raise AnalysisError("pattern is not a string constant: %s" % q.unparse(e)[:80])
 
 
